@@ -486,6 +486,10 @@ func derivesFromParamSlice(v ssa.Value, fn *ssa.Function, seen map[ssa.Value]boo
 
 // ---- C01.b -----------------------------------------------------------------------------
 
+// "index is the last statement of the chunk", as it appears in reaching conditions (the
+// isLastStatement predicate is expanded into its definition, see pathcond.go)
+const isLastLit = "($1 == builtin:len($0.statements)-1)"
+
 func c01b(c *Ctx) {
 	fn := c.Fn("emitter.Emitter.emitScriptStatement")
 	split := c.Fn("emitter.chunk.splitChunkForBranch")
@@ -523,11 +527,11 @@ func c01b(c *Ctx) {
 			call := calls[0]
 			args := call.Common().Args
 			must := c.mustLits(split, call.Block())
-			ok = c.term(split, args[0]) == "$0" && c.term(split, args[2]) == "$1" && hasLit(must, "-(*emitter.chunk).isLastStatement($0,$1)@0")
+			ok = c.term(split, args[0]) == "$0" && c.term(split, args[2]) == "$1" && hasLit(must, "-"+isLastLit)
 			why = fmt.Sprintf("createPostLogicChunk(%s, _, %s) under %v; expected (receiver, _, index) exactly when !isLastStatement(index)", c.term(split, args[0]), c.term(split, args[2]), must)
 			// and on the other branch nothing is dropped: only when last
 			d := c.PC(split).canonOf(c.PC(split).At(call.Block()))
-			if ok && !dnfEquiv(d, mkDNF([]string{"-(*emitter.chunk).isLastStatement($0,$1)@0"})) {
+			if ok && !dnfEquiv(d, mkDNF([]string{"-"+isLastLit})) {
 				ok = false
 				why = "post-logic chunk created under " + d.String() + ", expected exactly !isLastStatement(index)"
 			}
